@@ -103,12 +103,27 @@ POLARITY = {
 MUTATORS = ("set", "delete", "flush", "remove", "remove_if")
 
 
+# the rules' own labels for the parameters of the public MemcStore methods (positional: the source's names do not matter)
+MEMC_ARGS = {
+    "set": ["self", "key", "record"],
+    "add": ["self", "key", "record"],
+    "replace": ["self", "key", "record"],
+    "append": ["self", "key", "new_record"],
+    "prepend": ["self", "key", "new_record"],
+    "get": ["self", "key"],
+    "delete": ["self", "key", "header"],
+    "flush": ["self", "header"],
+    "increment": ["self", "header", "key", "delta"],
+    "decrement": ["self", "header", "key", "delta"],
+}
+
+
 def memc_paths(ctx, meth):
     key = "memc_paths:" + meth
     if key not in ctx._cache:
         f = ctx.facts
         b = f.one(MEMC + "::" + meth)
-        argn = [b.local_name(i) or "a%d" % i for i in b.arg_locals()]
+        argn = MEMC_ARGS.get(meth) or [b.local_name(i) or "a%d" % i for i in b.arg_locals()]
         I = Interp(f, models=BUF_MODELS)
         ctx._cache[key] = (b, I.run(b, [P(n) for n in argn]))
     return ctx._cache[key]
